@@ -22,7 +22,7 @@ def jobs(rng, thorough):
 
 
 def run(ctx: core.Ctx):
-    ctx.lean_stage(extra_props=("C06b", "C06c"))
+    ctx.lean_stage(extra_props=("C06b", "C06c", "Tie"))
     results = b2check.run_b2(ctx, jobs, ["C06", "L5run"], label="subunit initialisation")
     b2check.l5_fold(ctx, results, "SubunitBase.initialize()")
     ctx.info["rule"] = ("23 classes x devices answering a random subset of functions with valid values, unsolicited reports, latencies 0..1 s, devices that never answer the sync query or fall silent; each under a seeded schedule, some with extra line-level preemptions; a case = one schedule; non-trivial = distinct (spec, seed)")
